@@ -1,4 +1,5 @@
 import Claripy.AST.Expr
+import Claripy.AST.Rules
 /-!
 Model of `claripy/algorithm/ite_relocation.py`: `excavate_ite` pulls `If`s towards the root, `burrow_ite` pushes them
 towards the leaves.  The constructors the real code calls (`make_like(simplify=True)`, `claripy.If`, `~cond`) are
@@ -71,6 +72,13 @@ def mkNot : Expr → Expr
   | .app .uge [a, b] => .app .ult [a, b]
   | .boolv b => .boolv (!b)
   | e => .app .not [e]
+
+/-- the right-hand side of the first proven schema (`R.all`) whose left-hand side is this node and whose side condition holds -/
+def firstRule (t : Expr) : Option Expr :=
+  (proposals t).findSome? fun p => R.all.findSome? fun s => if (s.lhs p == t) && s.side p then some (s.rhs p) else none
+
+/-- node constructor that rewrites by the rule table (one step at the root, like `simplifications.simplify` / `claripy.If`) -/
+def mkRules (op : Op) (args : List Expr) : Expr := (firstRule (.app op args)).getD (.app op args)
 
 /-! ### burrow_ite -/
 def isLeaf : Expr → Bool
